@@ -72,7 +72,8 @@ class BehaviorStrategy:
 def get_next_elapse_time(events: list[Event]) -> float:
     for event in events:
         if event["tag"] in (Tag.DELAY,) and event["payload"]["time"] > 0:
-            return event["payload"]["time"]  # type: ignore
+            # events restored from a response that travelled as JSON may hold 720 where 720.0 was written
+            return float(event["payload"]["time"])
 
     return 0.0
 
